@@ -214,7 +214,7 @@ PROPERTIES = {
     "C13": {
         "claims_termination": True,  # a case that exceeds the per-case time limit is a violation ("always returns", "bounded retries")
         "rule": "rapidcheck, three subs. 'reconstruct': closed polyhedra with polygonal faces (box, n-prism, bipyramid, icosphere, ellipsoid, "
-                "non-convex L-prism, triangulated variants), per-face winding none / some / all reversed, rigid placement and um..x250 scale, "
+                "non-convex L-prism, triangulated variants; 1/4 are drawn from the sharp / re-entrant ones - triangular prism, 3- and 4-sided bipyramid, L-prism - where the ball pivoting leaves several holes to fill), per-face winding none / some / all reversed, rigid placement and um..x250 scale, "
                 "l_min / diameter in [0.04, 0.16], triangulation on (4/5) or off, written to an input file and loaded through "
                 "simulation_initializer with seeded RNGs (hook H2). 'coarse': the hostile corner - L-prisms, thin plates, flat or needle-like bipyramids and sharp wedges (polygon angles down to 5 degrees) with l_min between 0.25 and 1.1 of the smallest feature, so that the bounded retries are used up; only 'a valid closed surface or a clean failure' is judged there (a flat double-sided sheet for an input thinner than l_min has no inside: counted, orientation not judged). 'poisson': the sampling alone, pairwise spacing and on-surface "
                 "distance by brute force. 'holes': ball-pivoting hole filling driven through the bpa_tester friend on icospheres with 1-8 "
